@@ -1165,6 +1165,10 @@ class Interp:
                     if is_property(fm[1]):
                         return self.call_closure(c, [], {})
                     return c
+            if home:
+                ga = find_method(home, v.cls, '__getattr__')
+                if ga:
+                    return self.call_closure(Closure(ga[1], None, ga[0], v.cls + '.__getattr__', bound=v, owner=(ga[0], ga[2])), [a], {})
             raise OutOfFragment('struct attr %s.%s' % (v.cls, a))
         if isinstance(v, VmapProxy):
             if a == 'vmap':
@@ -1406,29 +1410,65 @@ class Interp:
             return None
         return self.apply(fn, list(trees), {})
 
+    def _slice_axes(self, a, ax, i):
+        """Element i of `a` along the axes spec `ax` (int, None, or a pytree of those matching `a`)."""
+        if ax is None:
+            return a
+        if isinstance(ax, Struct) and isinstance(a, Struct):
+            return Struct(a.cls, {k: self._slice_axes(v, ax.f.get(k), i) for k, v in a.f.items()}, home=a.home)
+        if isinstance(ax, dict) and isinstance(a, dict):
+            return {k: self._slice_axes(v, ax.get(k), i) for k, v in a.items()}
+        if isinstance(ax, (list, tuple)) and isinstance(a, (list, tuple)):
+            return type(a)(self._slice_axes(v, x, i) for v, x in zip(a, ax))
+        if isinstance(ax, Rat):
+            ax = int(ax.constval())
+        if isinstance(ax, np.ndarray) and ax.shape == ():
+            ax = int(Rat.lift(ax[()]).constval())
+        if isinstance(ax, int):
+            return self.tree_map(('prim', 'idx', lambda x, i=i, ax=ax: np.take(asarr(x), i, axis=ax)), a)
+        raise OutOfFragment('vmap in_axes %r' % (ax,))
+
+    def _mapped_len(self, a, ax):
+        if ax is None:
+            return None
+        if isinstance(ax, Struct) and isinstance(a, Struct):
+            for k, v in a.f.items():
+                n = self._mapped_len(v, ax.f.get(k))
+                if n is not None:
+                    return n
+            return None
+        if isinstance(ax, dict) and isinstance(a, dict):
+            for k, v in a.items():
+                n = self._mapped_len(v, ax.get(k))
+                if n is not None:
+                    return n
+            return None
+        if isinstance(ax, (list, tuple)) and isinstance(a, (list, tuple)):
+            for v, x in zip(a, ax):
+                n = self._mapped_len(v, x)
+                if n is not None:
+                    return n
+            return None
+        l = self.leaves(a)
+        if not l:
+            return None
+        axi = int(Rat.lift(ax).constval()) if not isinstance(ax, int) else ax
+        return asarr(l[0]).shape[axi]
+
     def apply_vmapped(self, vm, args, kw):
         in_axes = vm.in_axes
         if not isinstance(in_axes, (list, tuple)):
             in_axes = [in_axes] * len(args)
         n = None
         for a, ax in zip(args, in_axes):
-            if ax is None:
-                continue
-            l = self.leaves(a)
-            if l:
-                n = asarr(l[0]).shape[0] if not isinstance(ax, (list, tuple, Struct)) else n
-                if n is not None:
-                    break
+            n = self._mapped_len(a, ax)
+            if n is not None:
+                break
         if n is None:
             raise OutOfFragment('vmap without mapped axis')
         outs = []
         for i in range(n):
-            ai = []
-            for a, ax in zip(args, in_axes):
-                if ax is None:
-                    ai.append(a)
-                else:
-                    ai.append(self.tree_map(('prim', 'idx', lambda x, i=i: asarr(x)[i]), a))
+            ai = [self._slice_axes(a, ax, i) for a, ax in zip(args, in_axes)]
             outs.append(self.apply(vm.fn, ai, kw))
         return self.tree_map(('prim', 'stack', lambda *a: np.stack([asarr(x) for x in a])), *outs)
 
